@@ -9,7 +9,10 @@ import (
 	"flag"
 	"fmt"
 	"os"
+	"runtime"
 	"sync"
+	"sync/atomic"
+	"time"
 
 	"verif/mc/c03scen"
 )
@@ -31,48 +34,90 @@ func main() {
 	flag.Parse()
 	shapes := c03scen.Shapes(*thorough)
 	res := result{Goroutines: *g, Iterations: *iters}
+	// progress watchdog: requests take microseconds; when not a single request completes for two minutes although
+	// goroutines are still at work, the pass is stuck (a deadlock among the requests): report it instead of hanging
+	var served atomic.Int64
+	var curShape atomic.Value
+	curShape.Store("")
+	go func() {
+		last, idle := int64(-1), 0
+		for {
+			time.Sleep(10 * time.Second)
+			if n := served.Load(); n != last {
+				last, idle = n, 0
+				continue
+			}
+			idle++
+			if idle >= 12 {
+				buf := make([]byte, 1<<16)
+				buf = buf[:runtime.Stack(buf, true)]
+				fmt.Fprintf(os.Stderr, "NO-PROGRESS: no request completed for 120 s after %d requests on shape{%s}\n%s\n", last, curShape.Load(), buf)
+				fmt.Printf("{\"stuck\":true,\"requests\":%d,\"shape\":%q}\n", last, curShape.Load())
+				os.Exit(4)
+			}
+		}
+	}()
 	var mu sync.Mutex
 	for si, sh := range shapes {
 		if *only >= 0 && si != *only {
 			continue
 		}
 		res.Shapes++
+		curShape.Store(sh.String())
 		// solo expectations: each kind alone on a fresh identical router
 		exp := make([]string, len(c03scen.Kinds))
 		for i, q := range c03scen.Kinds {
 			exp[i] = c03scen.Serve(c03scen.Build(sh), q)
 		}
-		r := c03scen.Build(sh)
-		var wg sync.WaitGroup
-		for t := 0; t < *g; t++ {
-			wg.Add(1)
-			go func(t int) {
-				defer wg.Done()
-				var n, bad int64
-				var first []string
-				for it := 0; it < *iters; it++ {
-					for k := range c03scen.Kinds {
-						i := (k + t) % len(c03scen.Kinds)
-						got := c03scen.Serve(r, c03scen.Kinds[i])
-						n++
-						if got != exp[i] {
-							bad++
-							if len(first) < 2 {
-								first = append(first, fmt.Sprintf("shape{%s} %s: observed %s, alone it observes %s", sh, c03scen.Kinds[i], got, exp[i]))
+		// rounds: a FRESH router per round (first-use effects - lazy initialisation, memoised results, an empty cache -
+		// get one chance per round, not one per shape), all goroutines released together; in even rounds they all start
+		// with the same request kind (the round number picks it), in odd rounds each starts at its own offset
+		rounds := 30
+		per := *iters / rounds
+		if per < 1 {
+			per = 1
+		}
+		for round := 0; round < rounds; round++ {
+			r := c03scen.Build(sh)
+			var wg sync.WaitGroup
+			start := make(chan struct{})
+			for t := 0; t < *g; t++ {
+				wg.Add(1)
+				go func(t int) {
+					defer wg.Done()
+					var n, bad int64
+					var first []string
+					off := t
+					if round%2 == 0 {
+						off = round / 2
+					}
+					<-start
+					for it := 0; it < per; it++ {
+						for k := range c03scen.Kinds {
+							i := (k + off) % len(c03scen.Kinds)
+							got := c03scen.Serve(r, c03scen.Kinds[i])
+							served.Add(1)
+							n++
+							if got != exp[i] {
+								bad++
+								if len(first) < 2 {
+									first = append(first, fmt.Sprintf("shape{%s} %s: observed %s, alone it observes %s", sh, c03scen.Kinds[i], got, exp[i]))
+								}
 							}
 						}
 					}
-				}
-				mu.Lock()
-				res.Requests += n
-				res.Mismatches += bad
-				if len(res.First) < 4 {
-					res.First = append(res.First, first...)
-				}
-				mu.Unlock()
-			}(t)
+					mu.Lock()
+					res.Requests += n
+					res.Mismatches += bad
+					if len(res.First) < 4 {
+						res.First = append(res.First, first...)
+					}
+					mu.Unlock()
+				}(t)
+			}
+			close(start)
+			wg.Wait()
 		}
-		wg.Wait()
 	}
 	b, _ := json.Marshal(res)
 	fmt.Println(string(b))
